@@ -7,6 +7,11 @@ import (
 	"strings"
 )
 
+//"interface" also starts with "int", but an interface value is not an integer
+func isIntKind(kind string) bool {
+	return strings.HasPrefix(kind, "int") && kind != "interface"
+}
+
 func Add(a, b reflect.Value) (interface{}, error) {
 	akind := a.Kind().String()
 	bkind := b.Kind().String()
@@ -16,8 +21,8 @@ func Add(a, b reflect.Value) (interface{}, error) {
 		return fmt.Sprintf("%s%s", a.String(), b.String()), nil
 	}
 
-	if strings.HasPrefix(akind, "int") {
-		if strings.HasPrefix(bkind, "int") {
+	if isIntKind(akind) {
+		if isIntKind(bkind) {
 			return a.Int() + b.Int(), nil
 		}
 
@@ -31,7 +36,7 @@ func Add(a, b reflect.Value) (interface{}, error) {
 	}
 
 	if strings.HasPrefix(akind, "uint") {
-		if strings.HasPrefix(bkind, "int") {
+		if isIntKind(bkind) {
 			return int64(a.Uint()) + b.Int(), nil
 		}
 
@@ -45,7 +50,7 @@ func Add(a, b reflect.Value) (interface{}, error) {
 	}
 
 	if strings.HasPrefix(akind, "float") {
-		if strings.HasPrefix(bkind, "int") {
+		if isIntKind(bkind) {
 			return a.Float() + float64(b.Int()), nil
 		}
 
@@ -64,8 +69,8 @@ func Sub(a, b reflect.Value) (interface{}, error) {
 	akind := a.Kind().String()
 	bkind := b.Kind().String()
 
-	if strings.HasPrefix(akind, "int") {
-		if strings.HasPrefix(bkind, "int") {
+	if isIntKind(akind) {
+		if isIntKind(bkind) {
 			return a.Int() - b.Int(), nil
 		}
 
@@ -79,7 +84,7 @@ func Sub(a, b reflect.Value) (interface{}, error) {
 	}
 
 	if strings.HasPrefix(akind, "uint") {
-		if strings.HasPrefix(bkind, "int") {
+		if isIntKind(bkind) {
 			return int64(a.Uint()) - b.Int(), nil
 		}
 
@@ -93,7 +98,7 @@ func Sub(a, b reflect.Value) (interface{}, error) {
 	}
 
 	if strings.HasPrefix(akind, "float") {
-		if strings.HasPrefix(bkind, "int") {
+		if isIntKind(bkind) {
 			return a.Float() - float64(b.Int()), nil
 		}
 
@@ -112,8 +117,8 @@ func Mul(a, b reflect.Value) (interface{}, error) {
 	akind := a.Kind().String()
 	bkind := b.Kind().String()
 
-	if strings.HasPrefix(akind, "int") {
-		if strings.HasPrefix(bkind, "int") {
+	if isIntKind(akind) {
+		if isIntKind(bkind) {
 			return a.Int() * b.Int(), nil
 		}
 
@@ -127,7 +132,7 @@ func Mul(a, b reflect.Value) (interface{}, error) {
 	}
 
 	if strings.HasPrefix(akind, "uint") {
-		if strings.HasPrefix(bkind, "int") {
+		if isIntKind(bkind) {
 			return int64(a.Uint()) * b.Int(), nil
 		}
 
@@ -141,7 +146,7 @@ func Mul(a, b reflect.Value) (interface{}, error) {
 	}
 
 	if strings.HasPrefix(akind, "float") {
-		if strings.HasPrefix(bkind, "int") {
+		if isIntKind(bkind) {
 			return a.Float() * float64(b.Int()), nil
 		}
 
@@ -160,7 +165,7 @@ func Div(a, b reflect.Value) (interface{}, error) {
 	akind := a.Kind().String()
 	bkind := b.Kind().String()
 
-	if strings.HasPrefix(bkind, "int") {
+	if isIntKind(bkind) {
 		bi := b.Int()
 		if bi == 0 {
 			return nil, errors.New("DIV(/) can't be used to Div ZERO(0)!")
@@ -179,8 +184,8 @@ func Div(a, b reflect.Value) (interface{}, error) {
 		}
 	}
 
-	if strings.HasPrefix(akind, "int") {
-		if strings.HasPrefix(bkind, "int") {
+	if isIntKind(akind) {
+		if isIntKind(bkind) {
 			return a.Int() / b.Int(), nil
 		}
 
@@ -194,7 +199,7 @@ func Div(a, b reflect.Value) (interface{}, error) {
 	}
 
 	if strings.HasPrefix(akind, "uint") {
-		if strings.HasPrefix(bkind, "int") {
+		if isIntKind(bkind) {
 			return int64(a.Uint()) / b.Int(), nil
 		}
 
@@ -208,7 +213,7 @@ func Div(a, b reflect.Value) (interface{}, error) {
 	}
 
 	if strings.HasPrefix(akind, "float") {
-		if strings.HasPrefix(bkind, "int") {
+		if isIntKind(bkind) {
 			return a.Float() / float64(b.Int()), nil
 		}
 
